@@ -153,6 +153,19 @@ pub fn oracle(notes: usize, acts: &[Act], out: &sched::Outcome2) -> Verdict {
             c11 = Some(format!("after the schedule the server's text of note {} is version {} but the last didChange sent carried version {} (events: {:?})", n, out.finals[n] as i64, want, out.events.iter().filter(|e| e.starts_with("message-panicked")).take(2).collect::<Vec<_>>()));
         }
     }
+    // the edits are applied completely: what the server says about the notes after the schedule is what a freshly
+    // started server says about the final texts (hints: who includes / links to a note, and where)
+    if c11.is_none() && out.finals.iter().all(|v| *v != u32::MAX) {
+        if let Ok(fresh) = dump::catch(|| sched::fresh_hints(notes, &out.finals)) {
+            for n in 0..notes {
+                if let Some(got) = &out.final_hints[n] {
+                    if *got != fresh[n] && c11.is_none() {
+                        c11 = Some(format!("after the schedule the hints of note {} are {:?}, a server started on the final texts (versions {:?}) says {:?}", n, got, out.finals, fresh[n]));
+                    }
+                }
+            }
+        }
+    }
     for (id, (note, want)) in &seen_at_request {
         if let Some(Some(v)) = out.replies.get(id) {
             if v != want && c11.is_none() {
